@@ -48,6 +48,7 @@ type taskInfo struct {
 	calls int // storage calls made so far by this task
 	per   map[string]int
 	rec   *RPCRecord
+	done  []string // background tasks: storage calls that have returned
 }
 
 // crashPanic is the sentinel panic that models the death of the server
@@ -228,6 +229,7 @@ type World struct {
 	RPCs      []*RPCRecord
 	keepRPCs  bool
 	curCli    int
+	allTasks  []*taskInfo // every task that has completed a storage call
 	DrainLog  []string
 	Intr      *intruderState // C13
 	Panics    []string       // C09 hostile: classes of recovered panics, in order
@@ -894,11 +896,15 @@ func (h *dbHooks) After(ctx context.Context, method string, tok int, args []any,
 	if ti == nil {
 		return nil
 	}
+	w.mu.Lock()
 	if ti.fg && ti.rec != nil {
-		w.mu.Lock()
 		ti.rec.Done = append(ti.rec.Done, method)
-		w.mu.Unlock()
 	}
+	if len(ti.done) == 0 {
+		w.allTasks = append(w.allTasks, ti)
+	}
+	ti.done = append(ti.done, method) // every task: requests, admin and housekeeping actions, background tasks
+	w.mu.Unlock()
 	if len(w.observers) > 0 {
 		ev := DBEvent{Task: ti.name, FG: ti.fg, Method: method, Args: args, Rets: rets}
 		w.mu.Lock()
@@ -1074,6 +1080,21 @@ func (w *World) inPushCheckpointWindow() bool {
 			}
 		}
 		if stored && !acked {
+			return true
+		}
+	}
+	// ... or a background task (the housekeeping pass detaching a silent client's document)
+	for _, ti := range w.allTasks {
+		lastStore, lastAck := -1, -1
+		for i, c := range ti.done {
+			if c == "CreateChangeInfos" {
+				lastStore = i
+			}
+			if c == "UpdateClientInfoAfterPushPull" {
+				lastAck = i
+			}
+		}
+		if lastStore > lastAck {
 			return true
 		}
 	}
